@@ -1,12 +1,52 @@
 """Implementation side of C02: render + write a PDF under a watchdog (run in worker processes)."""
 
+REPEAT_LIMIT = 150      # the same resume point returned by more than this many pages: pagination makes no progress
+
+
+class NoProgress(Exception):
+    pass
+
+
+def _watch_progress():
+    """Wrap layout.page.remake_page: when one resume point keeps coming back, stop the render and say where the
+    pagination is stuck (the box types along the resume path, innermost last)."""
+    import weasyprint.layout.page as page
+    if getattr(page.remake_page, '_verif_wrapped', False):
+        page.remake_page._seen.clear()
+        return
+    original = page.remake_page
+    seen = {}
+
+    def remake_page(index, page_groups, context, root_box, html):
+        result = original(index, page_groups, context, root_box, html)
+        resume_at = result[1]
+        if resume_at is not None:
+            key = repr(resume_at)
+            seen[key] = seen.get(key, 0) + 1
+            if seen[key] > REPEAT_LIMIT:
+                chain, box, skip = [], root_box, resume_at
+                while isinstance(skip, dict) and skip and box is not None:
+                    chain.append(type(box).__name__)
+                    (i, skip), = list(skip.items())[:1]
+                    children = getattr(box, 'children', ())
+                    box = children[i] if isinstance(i, int) and i < len(children) else None
+                if box is not None:
+                    chain.append(type(box).__name__)
+                raise NoProgress('>'.join(chain[-2:]))
+        return result
+    remake_page._verif_wrapped = True
+    remake_page._seen = seen
+    page.remake_page = remake_page
+
 
 def render(case):
-    from weasyprint import HTML
-    from tests.testing_utils import TEST_UA_STYLESHEET, TEST_UA_FONT_CONFIG  # noqa
-    html, options = case['html'], dict(case.get('options') or {})
     from tests.testing_utils import FakeHTML
-    doc = FakeHTML(string=html).render(**{k: v for k, v in options.items() if k in ('pdf_forms', 'pdf_variant')} if False else {})
+    html, options = case['html'], dict(case.get('options') or {})
+    _watch_progress()
+    try:
+        doc = FakeHTML(string=html).render()
+    except NoProgress as exc:
+        return {'pages': -1, 'no_progress': str(exc), 'pdf_len': 0, 'starts': ''}
     npages = len(doc.pages)
     pdf = doc.write_pdf(**options)
     return {'pages': npages, 'pdf_len': len(pdf), 'starts': pdf[:5].decode('latin1')}
